@@ -11,7 +11,7 @@ from typing import Any, Dict, List, Optional
 
 import numpy
 
-from .. import core, model, ops, seams
+from .. import prelude, core, model, ops, seams
 from ..runner import NUMPOLY_DIR
 
 ID = "C17"
@@ -105,7 +105,7 @@ def generate(rs: int, tier: str, index: int) -> dict:
         elif cls == "alloc":
             step["fault"] = {"kind": "alloc", "mode": "all", "u": c.u64()}
         steps.append(step)
-    return {"property": ID, "run_seed": rs, "tier": tier, "class": cls, "steps": steps}
+    return {"property": ID, "run_seed": rs, "tier": tier, "prelude": prelude.gen_prelude(core.Chooser(rs, "prelude")), "class": cls, "steps": steps}
 
 
 # ---------------------------------------------------------------------------
@@ -302,6 +302,7 @@ def execute(plan: dict) -> dict:
         warnings.simplefilter("ignore")
         with numpy.errstate(all="ignore"), seams.Env(plan["run_seed"], sort="stable", fill=None) as env:
             runner = Runner(plan, env)
+            prelude.run_prelude(plan.get("prelude"), runner.stats)
             for step in plan["steps"]:
                 runner.run_step(step)
             for key, value in env.counters.items():
@@ -310,6 +311,10 @@ def execute(plan: dict) -> dict:
 
 
 def simplify(plan: dict):
+    if plan.get("prelude"):
+        yield dict(plan, prelude=None)
+        for i in range(len(plan["prelude"])):
+            yield dict(plan, prelude=plan["prelude"][:i] + plan["prelude"][i + 1:] or None)
     for i, step in enumerate(plan["steps"]):
         desc = step["op"]
         # drop the fault (is it a fault-free violation?)
